@@ -4,7 +4,7 @@ import torch, torch.nn as nn
 import torchphysics as tp
 from torchphysics.problem.spaces import Points
 from torchphysics.utils import differentialoperators as do
-from .common import main, watched
+from .common import main, watched, pick
 
 
 class Square(nn.Module):
@@ -71,7 +71,7 @@ def swapped(x, s):
 
 
 def run_one(s):
-    s = dict(s, split=(s["tid"] % 2 == 0))
+    s = dict(s, split=(pick(s["tid"], 2) == 0))
     torch.manual_seed(s["tid"])
     m = s["m"]
     r = watched(lambda: (build(s, True), build(s, False)))
